@@ -62,7 +62,8 @@ CHECKS.update({
              "connected_components against the spec's reachability-based Components; compose of component subgraphs; compose of overlapping "
              "pieces in both orders (later wins; stereo changes merged per change) and one further edit on the result; all compared with "
              "Subgraph/Compose of the spec; the cover law (a graph composed with one of its induced subgraphs is the graph again) is an action "
-             "property of MC_Edit; subsets also as numpy arrays, pieces also as one-shot iterators. "
+             "property of MC_Edit; subsets also as numpy arrays, pieces also as one-shot iterators; mixed classes (a reaction graph composed with "
+             "its own reactant / product / converted copy, profile K6). "
              "Random covers on larger graphs validated by TLC.",
         design_ref="DESIGN.md 6 (C17)", note=EDIT_NOTE, technique=EDIT_TECH),
 })
@@ -100,7 +101,8 @@ CHECKS.update({
              "TLA+ state machine (spec/VF2.tla; MC_VF2: exact for ALL pairs of labelled graphs on <= 3 / 4 atoms, every matching order, "
              "every order of taking candidates); runs of the real loop recorded through the env-guarded tracer are replayed step by step "
              "(Trace_VF2: logged state = specification's successor state, invariants in every state) and their yields compared with the "
-             "specification's own run on the same instance (random graphs <= 7 atoms, corpus molecules up to 60 atoms).",
+             "specification's own run on the same instance (random graphs <= 7 atoms, hydrogen-free polycyclic skeletons, corpus molecules up to "
+             "60 atoms).",
         design_ref="DESIGN.md 6 (C05), 11.5", note=ISO_NOTE, technique=ISO_TECH + "; VF2++ loop model (VF2.tla/MC_VF2) + trace validation of the instrumented loop (Trace_VF2)"),
     "C06": dict(category="model_checking",
         text="For every stereo family member TLC gives Enantiomer(g) and whether a bijection onto it exists; enantiomer() must project "
@@ -160,7 +162,7 @@ CHECKS.update({
         text="Labels: for a centre with pairwise distinct monoatomic ligands every permutation label (@/@@, @SP1-3, @TB1-20, @OH1-30) "
              "in several random spellings and renumberings is imported by atom-map number; Obs_Descr (TLC) decides for every pair of "
              "imports whether the centre descriptors denote the same arrangement: same label <=> same arrangement, and the "
-             "library's == / hash must agree. Corpus: 75 organic molecules x stereoisomers x respelling / renumbering / option "
+             "library's == / hash must agree. Corpus: about 120 organic molecules (small rings, bridgehead alkenes, cyclic and acyclic delocalised ions) x stereoisomers x respelling / renumbering / option "
              "combinations; Obs_IsoPair (TLC, complete search) decides whether two imports are isomorphic; distinct stereoisomers "
              "must import non-isomorphic; the atom-map import must be the index import renamed (Obs_Meta, literal).",
         design_ref="DESIGN.md 6 (C12)", note=RD_NOTE,
